@@ -209,6 +209,9 @@ func kfArraySlice(args []KeyBuilderStage) (KeyBuilderStage, error) {
 		realStart := sliceStart
 		if realStart < 0 { // Negative start index starts from end
 			realStart += strings.Count(splitter.S, ArraySeparatorString) + 1
+			if realStart < 0 { // Clamp to the beginning when further back than the length
+				realStart = 0
+			}
 		}
 
 		for i := 0; (sliceLen < 0 || i < realStart+sliceLen) && !splitter.Done(); i++ {
